@@ -408,9 +408,32 @@ def shard(args):
             fam = r.choice([['all'], ['all'], ['has'], ['ntok'], ['count'],
                             ['hash']])
             rules, pred = workload.pick_spec(r, text, families=fam)
+            binout = None
+            if r.random() < 0.2:
+                # "every command": one whose output is not text - bytes that
+                # are not valid UTF-8 on stdout or stderr, in the golden run
+                # or only on some candidates
+                binout = r.choice(['golden', 'candidates', 'candidates'])
+                junk = r.choice(['%FF%FE%80', 'caf%E9%0A', '%C3%28', '%80'])
+                stream = r.choice(['out', 'err'])
+                toks = [t for t in workload.tokens_of(text)
+                        if t not in '()'] or ['x']
+                t = realrun.pct(r.choice(toks))
+                if binout == 'golden':
+                    rules = [f'has:{t} => exit=3 {stream}={junk}',
+                             'all => exit=0 out=ok%0A']
+                else:
+                    t2 = realrun.pct(r.choice(toks))
+                    rules = [f'has:{t2} ! has:{t} & => exit=3 {stream}={junk}',
+                             f'count:false>=1 => exit=3 {stream}={junk}',
+                             f'has:{t} => exit=3 out=bug%0A',
+                             'all => exit=0 out=ok%0A']
+                res.count(f'runs_with_non_utf8_output_{binout}')
             strat = r.choice(workload.STRATEGIES)
             j = r.choice([1, 1, 2, 4])
             opts = ['--strategy', strat, '-j', str(j), '--timeout', '20']
+            if binout and r.random() < 0.6:
+                opts += [r.choice(['-v', '-vv'])]
             if r.random() < 0.6:
                 opts += r.sample(['--bv', '--fp', '--strings', '--datatypes',
                                   '--arithmetic'], r.randint(1, 5))
@@ -423,10 +446,27 @@ def shard(args):
                 # is past its start-up and inside the minimisation)
                 sig = r.choice([1, 2, 3, 5, 8, 13, 21])
             desc = {'input': text, 'rules': rules, 'kind': kind,
-                    'strategy': strat, 'jobs': j, 'sigint_after': sig}
+                    'strategy': strat, 'jobs': j, 'sigint_after': sig,
+                    'non_utf8_output': binout}
             wd = os.path.join(base, f'run{i}')
+            launcher = None
+            if sig is None and binout is None and r.random() < 0.15:
+                # the check of some candidates fails for an environmental
+                # reason (injected OSError while the candidate is checked)
+                launcher = {'monitors': [], 'break_check': {
+                    'seed': r.randint(0, 10**6),
+                    'per_mille': r.choice([30, 100, 300])}}
+                if r.random() < 0.6:
+                    opts += [r.choice(['-v', '-vv'])]
+                desc['injected_check_faults'] = launcher['break_check']
+                res.count('runs_with_injected_check_faults')
             run = realrun.run_ddsmt(wd, text, rules, opts=opts, entry=entry,
-                                    signal_after_tests=sig)
+                                    signal_after_tests=sig,
+                                    launcher=launcher)
+            if launcher:
+                res.count('injected_check_faults', sum(
+                    1 for e in run.events
+                    if e['ev'] == 'injected_check_fault'))
             if sig is not None and run.sent_signal:
                 res.count('interrupted_runs')
                 judge_interrupted(res, run, desc, entry)
